@@ -45,6 +45,13 @@ def try_as_register(operand, state):
         return None
 
 
+def with_mode(mode, register):
+    # The register may be a '%expr' whose value is only known later
+    if isinstance(register, BaseDeferred):
+        return Deferred[int](lambda: mode | wait(register))
+    return mode | register
+
+
 class RegisterOperandStub:
     def __init__(self, pattern_char, bit_indexes):
         self.pattern_char = pattern_char
@@ -110,7 +117,7 @@ class RegisterModeOperandStub:
             register = try_as_register(operand.expr, state)
             if register is not None:
                 # Register deferred
-                return 0o10 | register, b""
+                return with_mode(0o10, register), b""
 
         if isinstance(operand, operators.deferred):
             register = try_as_register(operand.operand, state)
@@ -120,31 +127,31 @@ class RegisterModeOperandStub:
                     "legacy-deferred",
                     (operand.ctx_start, operand.ctx_end, f"{operand!r} is a legacy way of spelling ({operand.operand!r}), please use the new syntax")
                 )
-                return 0o10 | register, b""
+                return with_mode(0o10, register), b""
 
         if isinstance(operand, operators.postadd) and isinstance(operand.operand, ParenthesizedExpression) and operand.operand.opening_parenthesis == "(":
             register = try_as_register(operand.operand.expr, state)
             if register is not None:
                 # Autoincrement
-                return 0o20 | register, b""
+                return with_mode(0o20, register), b""
 
         if isinstance(operand, operators.deferred) and isinstance(operand.operand, operators.postadd) and isinstance(operand.operand.operand, ParenthesizedExpression) and operand.operand.operand.opening_parenthesis == "(":
             register = try_as_register(operand.operand.operand.expr, state)
             if register is not None:
                 # Autoincrement deferred
-                return 0o30 | register, b""
+                return with_mode(0o30, register), b""
 
         if isinstance(operand, operators.neg) and isinstance(operand.operand, ParenthesizedExpression) and operand.operand.opening_parenthesis == "(":
             register = try_as_register(operand.operand.expr, state)
             if register is not None:
                 # Autodecrement
-                return 0o40 | register, b""
+                return with_mode(0o40, register), b""
 
         if isinstance(operand, operators.deferred) and isinstance(operand.operand, operators.neg) and isinstance(operand.operand.operand, ParenthesizedExpression) and operand.operand.operand.opening_parenthesis == "(":
             register = try_as_register(operand.operand.operand.expr, state)
             if register is not None:
                 # Autodecrement deferred
-                return 0o50 | register, b""
+                return with_mode(0o50, register), b""
 
         # Yes, I am aware that the nesting is broken here, but that's thanks to
         # hoisting and that's the least hacky way I had come up with.
@@ -152,13 +159,13 @@ class RegisterModeOperandStub:
             register = try_as_register(operand.rhs, state)
             if register is not None:
                 # Index deferred
-                return 0o70 | register, SizedDeferred[bytes](2, lambda: struct.pack("<H", get_as_int(state, "an index", operand, operand.lhs.operand, bitness=16, unsigned=False)))
+                return with_mode(0o70, register), SizedDeferred[bytes](2, lambda: struct.pack("<H", get_as_int(state, "an index", operand, operand.lhs.operand, bitness=16, unsigned=False)))
 
         if isinstance(operand, operators.call):
             register = try_as_register(operand.rhs, state)
             if register is not None:
                 # Index
-                return 0o60 | register, SizedDeferred[bytes](2, lambda: struct.pack("<H", get_as_int(state, "an index", operand, operand.lhs, bitness=16, unsigned=False)))
+                return with_mode(0o60, register), SizedDeferred[bytes](2, lambda: struct.pack("<H", get_as_int(state, "an index", operand, operand.lhs, bitness=16, unsigned=False)))
 
         if isinstance(operand, operators.deferred) and isinstance(operand.operand, ParenthesizedExpression) and operand.operand.opening_parenthesis == "(":
             register = try_as_register(operand.operand.expr, state)
@@ -168,7 +175,7 @@ class RegisterModeOperandStub:
                     "implicit-index",
                     (operand.ctx_start, operand.ctx_end, f"PDP-11 doesn't have {operand!r} addressing mode.\nThis expression is parsed as @0{operand.operand!r}, which does what you probably expect.\nHowever, this is in fact index deferred addressing with an implicit zero offset.\nYou might want to insert a zero for clarity.")
                 )
-                return 0o70 | register, b"\x00\x00"
+                return with_mode(0o70, register), b"\x00\x00"
 
         if isinstance(operand, operators.immediate):
             # Immediate
